@@ -17,7 +17,7 @@ RULE = ("two positions <= 1 NM apart (30% identical; latitude dense at the 58 NL
         "frame (lon mod 360), None only if the reference NL of the two encoded latitudes differ, equal parities -> RuntimeError. "
         "non-trivial = latitude within 0.02 deg of a transition, |lat|>86.5, |lon|>179.9, displaced pair, or odd-first argument order; "
         "distinct by (positions, parity, times)"
-        ' Also: int / float / datetime time stamps incl. naive datetimes inside the spring-forward hour of a pinned DST zone, hex letter case, the same two strings re-decoded with exchanged time stamps, 924 real even/odd pairs re-encoded by the reference encoder (leg corpus), 40 000 / 300 000 distinct pairs in a row in one process with identical pairs coming back later and four concurrent callers at the end (leg volume), the first position decodes of a freshly imported package made by four threads at once (leg first_use).')
+        ' Also: int / float / datetime time stamps incl. naive datetimes inside the spring-forward hour of a pinned DST zone, hex letter case, the same two strings re-decoded with exchanged time stamps, 924 real even/odd pairs re-encoded by the reference encoder (leg corpus), 40 000 / 300 000 distinct pairs in a row in one process with identical pairs coming back later and four concurrent callers at the end (leg volume), the first position decodes of a freshly imported package made by four threads at once (leg first_use), unsigned numpy time stamps, other message types / look-alike frames / an equal-parity sibling of the same aircraft decoded first, positions whose CPR fields are round binary numbers with corner altitude fields.')
 ASSUMPTIONS = ["pairs with an encoded latitude within 1e-9 deg of an NL transition are counted, not judged", "both frames carry a type code of the same class (mixed baro/GNSS pairs are rejected by position() by design)",
                "reference encoder ref/cpr.py follows DO-260B A.1.7.3"]
 
